@@ -3,6 +3,7 @@ package main
 // C13 — Route handling: consume own entry only, keep or strip next hop as configured.
 
 import (
+	"MODULEPATH/zzverif/fakenet"
 	"MODULEPATH/zzverif/rt"
 )
 
@@ -106,5 +107,72 @@ func VC13_Route() {
 		}
 	}
 	rt.Observe("dest", sent[0].dest)
+	rt.Reach("end")
+}
+
+// VC13_Wiring: the keep-next-hop-route setting as the configuration file spells it, through the
+// real startProxy: a setting that says yes (true / yes / on / 1, any case) keeps the entry naming
+// the next hop, one that says no (false / no / off / 0, or nothing) strips it.
+func VC13_Wiring() {
+	fakenet.Reset()
+	setting, keep := "", false
+	switch rt.Choice("setting", 3) {
+	case 1:
+		setting, keep = rt.StrRe("yes-word", "[tT][rR][uU][eE]|[yY][eE][sS]|[oO][nN]|1", 4), true
+	case 2:
+		setting = rt.StrRe("no-word", "[fF][aA][lL][sS][eE]|[nN][oO]|[oO][fF][fF]|0", 5)
+	}
+	cfg := ProxyConfig{Name: wService, KeepNextHopRoute: setting}
+	cfg.Listens = append(cfg.Listens, struct {
+		Address            string
+		UDPPort            int      `yaml:"udp-port,omitempty"`
+		TCPPort            int      `yaml:"tcp-port,omitempty"`
+		BackendLocalAdress string   `yaml:"backend-local-address,omitempty"`
+		BackendLocalPort   int      `yaml:"backend-local-port,omitempty"`
+		Backends           []string `yaml:",omitempty"`
+		Dests              []string `yaml:",omitempty"`
+		NoReceived         bool     `yaml:"no-received,omitempty"`
+		defRoute           bool     `yaml:"def-route,omitempty"`
+		MustRecordRoute    bool     `yaml:"must-record-route,omitempty"`
+	}{Address: wListenAddr, UDPPort: 5060, BackendLocalAdress: wListenAddr, BackendLocalPort: 5080,
+		Backends: []string{"udp://10.0.1.1:5060"}})
+	err := startProxy(cfg, NewPreConfigRoute(), NewPreConfigHostResolver())
+	rt.Assert(err == nil, "proxy starts")
+	if err != nil {
+		return
+	}
+	rt.Quiesce()
+	var sock *fakenet.UDPConn
+	for _, u := range fakenet.UDPConns {
+		if u.LocalAddr().String() == wListenAddr+":5060" {
+			sock = u
+		}
+	}
+	rt.Assert(sock != nil, "UDP listener socket created")
+	if sock == nil {
+		return
+	}
+	own, next, further := "<sip:"+wListenAddr+":5060;lr>", "<sip:10.0.3.5:5070;lr>", "<sip:10.0.3.6;lr>"
+	text := "INVITE sip:bob@" + wService + " SIP/2.0\r\nVia: SIP/2.0/UDP 10.0.2.2:5060;branch=z9hG4bKa\r\nRoute: " + own + "," + next + "," + further +
+		"\r\nFrom: <sip:alice@example.com>;tag=a\r\nTo: <sip:bob@" + wService + ">\r\nCall-ID: c1\r\nCSeq: 1 INVITE\r\nContent-Length: 0\r\n\r\n"
+	sock.Deliver("10.0.2.2:5060", []byte(text))
+	rt.Quiesce()
+	var out []string
+	for _, d := range fakenet.Sent {
+		if d.Remote == "10.0.3.5:5070" {
+			out = append(out, string(d.Payload))
+		}
+	}
+	rt.Assert(len(out) == 1 && len(fakenet.Sent) == 1, "the request goes to the next hop of its Route set, once")
+	if len(out) != 1 {
+		return
+	}
+	got := refRead(out[0]).listOf("route")
+	if keep {
+		rt.Assert(len(got) == 2 && got[0] == next && got[1] == further, "setting says yes: the entry naming the next hop is relayed")
+	} else {
+		rt.Assert(len(got) == 1 && got[0] == further, "setting says no (or is absent): the entry naming the next hop is stripped")
+	}
+	rt.Observe("setting", setting)
 	rt.Reach("end")
 }
